@@ -1182,6 +1182,11 @@ func (e *emitter) call(x *ast.CallExpr, h *hoist, ptrTargets *[]ast.Expr) string
 					e.t.fail(x, "%s with %d args", id.Name, len(x.Args))
 				}
 				return fmt.Sprintf("(%s %s %s)", id.Name, e.expr(x.Args[0], h), e.expr(x.Args[1], h))
+			case "make":
+				if _, isMap := e.typeOf(x).Underlying().(*types.Map); isMap && len(x.Args) == 1 {
+					return "[]"
+				}
+				e.t.fail(x, "make of a non-map type")
 			case "len":
 				T := e.typeOf(x.Args[0])
 				if isBytesType(T) {
@@ -1457,6 +1462,16 @@ func (e *emitter) assignTo(sb *strings.Builder, lhs ast.Expr, val string, n int,
 	case *ast.StarExpr:
 		e.assignTo(sb, l.X, val, n, h)
 		return
+	case *ast.IndexExpr:
+		if _, isMap := e.typeOf(l.X).Underlying().(*types.Map); isMap {
+			if mid, ok := l.X.(*ast.Ident); ok {
+				// m[k] = v on an association list: the newest binding comes first (Go.mapGet finds it first)
+				k := e.expr(l.Index, h)
+				sb.WriteString(fmt.Sprintf("%slet %s := (%s, %s) :: %s\n", e.ind(n), sanitize(mid.Name), k, val, sanitize(mid.Name)))
+				return
+			}
+		}
+		e.t.fail(lhs, "unsupported indexed assignment target")
 	case *ast.SelectorExpr:
 		root := rootIdent(l)
 		if root == nil {
@@ -2038,10 +2053,22 @@ func (e *emitter) checkBlockShadow(block []ast.Stmt, rest []ast.Stmt) {
 	if len(defined) == 0 {
 		return
 	}
+	if len(rest) == 0 {
+		return
+	}
+	rlo, rhi := rest[0].Pos(), rest[len(rest)-1].End()
 	for _, s := range rest {
 		ast.Inspect(s, func(n ast.Node) bool {
 			if id, ok := n.(*ast.Ident); ok && defined[id.Name] {
-				if e.t.L.info.Uses[id] != nil || e.t.L.info.Defs[id] != nil {
+				// a later re-declaration of the name, and uses of THAT declaration, are harmless: only a use that refers to
+				// a variable declared before the branch would be captured by the branch's `let`
+				if obj := e.t.L.info.Uses[id]; obj != nil {
+					if obj.Pos() >= rlo && obj.Pos() < rhi {
+						return true
+					}
+					e.t.fail(id, "name %s defined in a non-terminating branch is also used after it", id.Name)
+				}
+				if false {
 					e.t.fail(id, "name %s defined in a non-terminating branch is also used after it", id.Name)
 				}
 			}
